@@ -11,7 +11,7 @@ for l in open("/tmp/seed-results/confirm.log"):
     if m:
         confirm[(m.group(1), m.group(2))] = dict(build_rc=int(m.group(3)), demo_on_clean_tree_rc=int(m.group(4)), demo_with_change_rc=int(m.group(5)), baseline_tests_missing_with_change=int(m.group(6)))
 evals = {}
-for f in ("/tmp/seed-results/matrix.log",):
+for f in ("/tmp/seed-results/matrix.log", "/tmp/seed-results/matrix-final23.log"):
     if not os.path.exists(f):
         continue
     for l in open(f):
@@ -21,7 +21,7 @@ for f in ("/tmp/seed-results/matrix.log",):
             evals.setdefault((m.group(1), m.group(2)), []).append(dict(check=m.group(3), tier=m.group(4), exit=int(m.group(5)), detected=m.group(5) == "1", wall_s=float(w.group(1)) if w else None))
 notes = json.load(open("/verif/tools/seed_notes.json")) if os.path.exists("/verif/tools/seed_notes.json") else {}
 rows = []
-for d in sorted(glob.glob("/tmp/seed-out/C*/[ab]")):
+for d in sorted(glob.glob("/tmp/seed-out/C*/[abcd]")):
     p, v = d.split("/")[-2:]
     mf = os.path.join(d, "meta.json")
     if not os.path.exists(mf) or (p, v) not in confirm:
